@@ -603,6 +603,11 @@ func genCase(r *lib.Rng, n int, cfgs []*cfg, workers, port int) *kase {
 			rp.PauseMs = 70
 			k.feat("resp:slow-stream")
 		}
+		if n%40 == 11 && k.cfg.Retry != "" && rp.Framing != "close" && rp.BodyLen >= 2 && rq.Method != "HEAD" && rp.PauseMs == 0 {
+			// the backend dies after half of its body, in a block that retries failed attempts
+			rp.CutAt = rp.BodyLen / 2
+			k.feat("resp:backend-dies-in-mid-body")
+		}
 		if rq.Method != "HEAD" {
 			k.feat("resp-body:" + sizeClass(rp.BodyLen) + ":" + rp.Framing)
 		}
@@ -879,6 +884,33 @@ func runCase(c *lib.Ctx, k *kase, cl *rawClient, st *station, blocks map[string]
 		return m
 	}
 
+	if k.Reply.CutAt > 0 {
+		// what the client holds must be the beginning of that backend's reply and nothing else
+		c.Count("cases_backend_died_in_mid_body", 1)
+		if resp == nil || resp.Status == 0 {
+			c.Count("cut_reply_no_response_head", 1)
+			return
+		}
+		if resp.Status != k.Reply.Status {
+			// the head had not been relayed yet: any gateway error is fine
+			c.Count("cut_reply_answered_with_gateway_status", 1)
+			if bytes.Contains(resp.body, k.Reply.body[:min(len(k.Reply.body), 16)]) && len(k.Reply.body) >= 16 {
+				c.Violation("C04/resp-after-backend-death/mixed", fmt.Sprintf("[%s] the backend died in mid-reply; the client received status %d together with bytes of the dead backend's body", k.Cfg, resp.Status), wit(nil))
+			}
+			return
+		}
+		n := resp.BodyLen
+		if n > len(k.Reply.body) || !bytes.Equal(resp.body, k.Reply.body[:n]) {
+			c.Violation("C04/resp-after-backend-death/not-a-prefix", fmt.Sprintf("[%s] the backend sent %d of %d body bytes and died; the client received %d body bytes that are not the beginning of that reply (first difference at offset %d): something else was appended to a response already under way", k.Cfg, k.Reply.CutAt, len(k.Reply.body), n, firstDiffAt(resp.body, k.Reply.body)), wit(nil))
+			return
+		}
+		if n > k.Reply.CutAt {
+			c.Violation("C04/resp-after-backend-death/too-long", fmt.Sprintf("[%s] the backend sent only %d body bytes before it died, the client received %d", k.Cfg, k.Reply.CutAt, n), wit(nil))
+			return
+		}
+		c.Count("cut_reply_client_holds_a_prefix", 1)
+		return
+	}
 	// One defect class is recognised by its full signature rather than by the
 	// field that happens to differ: the request carried a Content-Length
 	// body, the client received a strict prefix of the reply body (or a
@@ -965,4 +997,16 @@ func runCase(c *lib.Ctx, k *kase, cl *rawClient, st *station, blocks map[string]
 		}
 		c.Violation(d.Key, fmt.Sprintf("[%s] %s", k.Cfg, d.What), wit(same))
 	}
+}
+
+func firstDiffAt(a, b []byte) int {
+	for i := 0; i < len(a) && i < len(b); i++ {
+		if a[i] != b[i] {
+			return i
+		}
+	}
+	if len(a) < len(b) {
+		return len(a)
+	}
+	return len(b)
 }
